@@ -25,6 +25,10 @@ CLAIMED = {
         text='Deductive proof over the real text of compile_unreachable, compile_unreachablez, the part of the Expr::Index arm of compile_expr_with_args after its operands are compiled, and the tagged branch of #unwrap (both lifted mechanically), plus Ty::{as_array,is_array,is_slice} and FinalTy::into_real_type: for every array/slice type, index type and index value, the emitted code compares the index -- read by its own signedness and widened to 64 bits -- unsigned with the length (the array type\'s length, or the first word of the slice value); everything after the comparison, including the element access at data + index*stride(element), is emitted in a block reached only when index < length; the other edge runs exactly puts(message); exit(1); trap and no store; the only reads before the check are the two words of the slice value. #unwrap on a tagged sum type compares the stored tag byte at the layout\'s discriminant offset with the requested variant\'s discriminant and reads the payload only behind that check. The compile-time clause (a literal index out of range for a fixed-size array is rejected) sits inside infer_expr and gets a BOUNDED stand-in on the real front end: array lengths x literal indices {0, n-1, n, n+1, n+4} x 6 ways of reaching the array.',
         note='Trusted: Cranelift control-flow shim (facts of a block = facts of its single incoming edge, shims/verus/clif_cf.rs), libc puts/exit, cast_ty_to_cranelift contract (proved in unit numeric), layout contracts (unit layout). Assumed path conditions of the lifted ranges: operands carry their types, source is the address of the array/slice value, a slice value holds (length, data pointer). Not covered: the recursive compile_expr calls that produce the operands, the pointer-deref loop in front of the range, the nullable-pointer branch of #unwrap, get_tagged_union_discrim, unwrap_sum_ty (assumed to read at most the payload), message texts.',
         ref='DESIGN.md 5 (C10)'),
+    'C11': dict(
+        text="Run-time half: deductive proof over the real text of the tagged branch of the Expr::Switch arm of compile_expr_with_args (lifted mechanically, from the tag load to the emission of the jump table): the value switched on is the byte at the discriminant offset of the scrutinee's layout, and the jump table sends the discriminant of every arm's variant to that arm's block and every other tag to the default block (lemmas: with pairwise different variants arm i's discriminant reaches block i; a tag that is no arm's discriminant is not in the table). Checker half (inside infer_expr, out of the verifier's reach): BOUNDED stand-in on the real front end -- every sequence of at most 4 (quick) / 5 (thorough) arms over the variants of an enum and a non-variant, with and without a default arm, on an enum and on a distinct wrapper of it; accepted iff only variants, each at most once, all of them or a default arm.",
+        note='Partial. Assumed: cranelift_frontend::Switch as documented (shim), get_tagged_union_discrim through an uninterpreted name, the arms carry pairwise different variants (that is the checker half). Not covered: the code of the arm blocks, the binding of the switch argument to the payload (unwrap_sum_ty), the nullable-pointer branch, optionals / error unions in the bounded half, lower_switch (MultipleDefaultArms, RegularArmAfterDefault). A genuine defect was found by the bounded half and repaired in /repo: a switch over a distinct enum made the checker panic.',
+        ref='DESIGN.md 5 (C11)'),
     'C13': dict(
         text='Deductive proof over the real text of Ty::can_fit_into and Ty::is_functionally_equivalent_to (arms outside the Verus dialect elided and treated as unknown): for all types, two nominal types of the same kind with different uids never mix; nothing nominal fits into a different enum variant; a distinct/variant fits neither a named struct, nor a foreign enum, nor its own (plain) underlying type; a named struct does not fit an enum; a variant fits its own enum. The clause "variant / named struct into a distinct wrapper" fails by design and is a recorded known finding.',
         note='Partial: implicit-acceptance clause only (can_fit_into). Ty::max, can_cast_to and the checker call sites (expect_match) are not under contract; `==` on Ty is assumed structural; elided arms: anonymous struct -> named struct, function types.',
@@ -66,7 +70,6 @@ NOT_APPLICABLE = {
     'C05': 'scope resolution walks rowan syntax trees inside filter_map closures that mutate self; no function boundary carries the rule',
     'C06': 'totality of the whole pipeline (parser recursion, inference fixpoint, ~400 unwrap sites); panic-freedom is proved only for the functions under contract, as a by-product',
     'C07': 'error <=> unsafe <=> no object is an equivalence over the whole pipeline, not a pre/post-condition',
-    'C11': 'exhaustiveness logic sits inside infer_expr and dispatch inside compile_expr_with_args; no function boundary carries the rule',
     'C12': 'relational laws between large recursive predicates; a full functional mirror would alarm on every behavioural change (more than the property states); the bounded Kani route does not run here (ICE on Ty::max, no result in 15 min)',
     'C14': 'get_mutability needs a formal HIR access-path typing model; not within reach',
     'C15': 'get_const likewise',
